@@ -661,6 +661,20 @@ func (c *Ctx) checkTagRegistry(r *Report, reg, val *ssa.Function) {
 				okAll = false
 				r.Fail("C18.register:BuildTag", c.instrPos(ret), "built tag shape is [%s]", s)
 			}
+			// the action is left out only when it is empty: dropping a non-empty action makes two different
+			// documented names collapse into one tag
+			if s == `"_" param:mainType "_" param:subType` && len(bt.Params) == 3 {
+				established := false
+				for _, g := range guardsOfInstr(ret) {
+					if stringEmptyOnEdge(g.Cond, g.Polarity, bt.Params[2]) {
+						established = true
+					}
+				}
+				if !established {
+					okAll = false
+					r.Fail("C18.register:BuildTag#omits", c.instrPos(ret), "the two-part name is returned on a path that does not establish that the action is empty: a non-empty action is dropped from the tag name")
+				}
+			}
 		})
 		// the builder refuses only an empty subType: any further refusal rejects names the validator accepts
 		nPanic, nOK := 0, 0
@@ -712,4 +726,66 @@ func (c *Ctx) checkTagRegistry(r *Report, reg, val *ssa.Function) {
 		}
 	}
 	_ = token.ADD
+}
+
+// stringEmptyOnEdge: taking cond with the given polarity establishes p == "" (comparisons with the empty constant or
+// tests of len(p) against 0/1).
+func stringEmptyOnEdge(cond ssa.Value, pol bool, p ssa.Value) bool {
+	for {
+		u, ok := cond.(*ssa.UnOp)
+		if !ok || u.Op != token.NOT {
+			break
+		}
+		cond, pol = u.X, !pol
+	}
+	b, ok := cond.(*ssa.BinOp)
+	if !ok {
+		return false
+	}
+	op := b.Op
+	x, y := b.X, b.Y
+	flip := map[token.Token]token.Token{token.LSS: token.GTR, token.GTR: token.LSS, token.LEQ: token.GEQ, token.GEQ: token.LEQ, token.EQL: token.EQL, token.NEQ: token.NEQ}
+	negate := map[token.Token]token.Token{token.LSS: token.GEQ, token.GEQ: token.LSS, token.GTR: token.LEQ, token.LEQ: token.GTR, token.EQL: token.NEQ, token.NEQ: token.EQL}
+	if _, ok := flip[op]; !ok {
+		return false
+	}
+	// normalise to: subject OP constant
+	isSubj := func(v ssa.Value) (kind string) {
+		if v == p {
+			return "str"
+		}
+		if call, ok := v.(*ssa.Call); ok {
+			if bi, ok := call.Call.Value.(*ssa.Builtin); ok && bi.Name() == "len" && call.Call.Args[0] == p {
+				return "len"
+			}
+		}
+		return ""
+	}
+	kind := isSubj(x)
+	if kind == "" {
+		if kind = isSubj(y); kind == "" {
+			return false
+		}
+		x, y = y, x
+		op = flip[op]
+	}
+	_ = x
+	if !pol {
+		op = negate[op]
+	}
+	switch kind {
+	case "str":
+		k, ok := constString(y)
+		if !ok || k != "" {
+			return false
+		}
+		return op == token.EQL || op == token.LEQ // s == "" ; s <= ""
+	case "len":
+		k, ok := constInt(y)
+		if !ok {
+			return false
+		}
+		return (op == token.EQL && k == 0) || (op == token.LEQ && k == 0) || (op == token.LSS && k == 1)
+	}
+	return false
 }
